@@ -1,6 +1,9 @@
 import PbVerif.Lemmas.Wrapper
 import PbVerif.Lemmas.Perm
 import PbVerif.Gen.Registry
+import PbVerif.Lemmas.LoopTbl
+import PbVerif.Lemmas.LoopNest
+import PbVerif.Gen.Loops
 /-! C01 — every call returns a well-formed (baseline, params) pair or raises: shape / order / dtype
 rule of the wrapper and length / stop-reason theorems of the loop skeleton. That each of the 95
 numerical cores preserves the length of its input and yields finite numbers on noisy finite data is
@@ -54,5 +57,161 @@ def rowShaped (r : MethodRow) : Bool :=
 open PbVerif.Gen in
 theorem registry_perpoint_keys_shaped :
     registry.all rowShaped = true ∧ registryTranslated = true ∧ 90 ≤ registry.length := by decide +kernel
+
+/-! ### the iteration loops as they are written in the source (Route A, `Gen/Loops`, regenerated on every run)
+
+`harness/pbv/translate_loops.py` reads, from every function of the algorithm modules that assigns `tol_history`, the allocation
+`np.empty(…)`, the header `for i in range(…)`, every write `tol_history[i + c] = …`, the break tests and the final slice
+`tol_history[:i + c]`; `LoopTbl.run` is the meaning of such a row for ARBITRARY numeric behaviour (`d k` = the value recorded in
+step k, `fl k p` = the opaque condition tested at position p of the body in step k).  The statements below hold for every row of
+the regenerated table, every `max_iter ≥ guard` (guard ≠ 0 only for dietrich, whose loop sits under `if max_iter > 1`), every
+tol and every `d`, `fl`: one lemma for the generic row shape (`Lemmas.LoopTbl.ok_safe`) + `decide` over the table. -/
+section Loops
+open PbVerif.Gen PbVerif.LoopTbl PbVerif.Lemmas.LoopTbl
+
+/-- every function that assigns `tol_history` was inside the translated fragment (no `translationFailed` marker) -/
+theorem loops_translated : loopFailed = [] ∧ loopsTranslated = true ∧ 55 ≤ loopTable.length ∧ 5 ≤ nestTable.length := by decide +kernel
+
+/-- the decidable row conditions hold for every translated method -/
+theorem loops_rows_ok : loopTable.all Row.ok = true := by decide +kernel
+
+theorem loops_row_ok {r : Row} (hr : r ∈ loopTable) : r.ok = true := List.all_eq_true.mp loops_rows_ok r hr
+
+/-- `max_iter = 0` and the other empty ranges: the run raises (the loop variable is unbound when the slice is taken — an ordinary
+exception, allowed by the property) exactly when `range(lo, hi(max_iter))` is empty; otherwise it returns -/
+theorem loops_raise_iff_empty_range (r : Row) (hr : r ∈ loopTable) (n : Nat) (hn : r.guard ≤ n) (tol : Rat) (d : Nat → Rat)
+    (fl : Nat → Nat → Bool) : (run r n tol d fl).raised = true ↔ r.budget n = 0 :=
+  (ok_safe r (loops_row_ok hr) n hn tol d fl).raised_iff
+
+/-- (a) every write `tol_history[i + c] = …` lands inside the allocation: no IndexError, and no silent wrap-around through a
+negative index either -/
+theorem loops_writes_in_bounds (r : Row) (hr : r ∈ loopTable) (n : Nat) (hn : r.guard ≤ n) (hb : r.budget n ≠ 0) (tol : Rat)
+    (d : Nat → Rat) (fl : Nat → Nat → Bool) :
+    ∀ x ∈ (run r n tol d fl).writes, 0 ≤ x.1 ∧ x.1 < r.alloc.eval n :=
+  ((ok_safe r (loops_row_ok hr) n hn tol d fl).ran hb).writes_in
+
+/-- (b) the final slice `tol_history[:i + c]` has a bound within the allocation, and EVERY entry it hands back was written (entry j
+in step j): no uninitialised `np.empty` memory reaches the caller — on the converged, exhausted and early-exit paths alike; and
+nothing that was recorded is cut off -/
+theorem loops_slice_initialised (r : Row) (hr : r ∈ loopTable) (n : Nat) (hn : r.guard ≤ n) (hb : r.budget n ≠ 0) (tol : Rat)
+    (d : Nat → Rat) (fl : Nat → Nat → Bool) :
+    (0 ≤ (run r n tol d fl).slice ∧ (run r n tol d fl).slice ≤ r.alloc.eval n) ∧
+    (∀ j : Nat, j < sliceLen (r.alloc.eval n) (run r n tol d fl).slice → ((j : Int), j) ∈ (run r n tol d fl).writes) ∧
+    (∀ x ∈ (run r n tol d fl).writes, x.1 < (run r n tol d fl).slice) :=
+  have s := (ok_safe r (loops_row_ok hr) n hn tol d fl).ran hb
+  ⟨s.slice_in, s.slice_written, s.written_in_slice⟩
+
+/-- (c) the returned record has at most `budget ≤ max_iter + 1` entries … -/
+theorem loops_record_len (r : Row) (hr : r ∈ loopTable) (n : Nat) (hn : r.guard ≤ n) (hb : r.budget n ≠ 0) (tol : Rat)
+    (d : Nat → Rat) (fl : Nat → Nat → Bool) :
+    sliceLen (r.alloc.eval n) (run r n tol d fl).slice ≤ r.budget n ∧ r.budget n ≤ n + 1 :=
+  have s := ok_safe r (loops_row_ok hr) n hn tol d fl
+  ⟨by rw [(s.ran hb).slice_len]; exact (s.ran hb).len_le, s.budget_le⟩
+
+/-- … and ends below tol unless the budget was exhausted or an early exit fired (the three reasons are exhaustive) -/
+theorem loops_stop_reason (r : Row) (hr : r ∈ loopTable) (n : Nat) (hn : r.guard ≤ n) (hb : r.budget n ≠ 0) (tol : Rat)
+    (d : Nat → Rat) (fl : Nat → Nat → Bool) :
+    match (run r n tol d fl).stop with
+    | .converged => 1 ≤ (run r n tol d fl).slice.toNat ∧ d ((run r n tol d fl).slice.toNat - 1) < tol
+    | .exhausted => (run r n tol d fl).slice.toNat = r.budget n
+    | .early => ∃ q, fl (run r n tol d fl).steps q = true := by
+  have g := ((ok_safe r (loops_row_ok hr) n hn tol d fl).ran hb).good
+  generalize hs : (run r n tol d fl).stop = s
+  cases s
+  · exact ⟨(g.conv hs).1, (g.conv hs).2.1⟩
+  · simpa using (g.exh hs).1
+  · exact (g.early hs).1
+
+/-- (d) a row whose final test is `x < tol` behaves exactly as the hand skeleton `Loop.runLoop` with the row's own budget, fed with the
+same difference stream and the row's early-exit flag — so `loop_hist_len`, `loop_stop_reason` and C09's `stop_*` / `hist_prefix` transfer
+to each such method; the record is the skeleton's history -/
+theorem loops_eq_skeleton (r : Row) (hr : r ∈ loopTable) (b : Bool) (hs : r.shape = some (b, .tol)) (n : Nat) (hn : r.guard ≤ n)
+    (hb : r.budget n ≠ 0) (tol : Rat) (d : Nat → Rat) (fl : Nat → Nat → Bool) :
+    ((run r n tol d fl).slice.toNat, (run r n tol d fl).stop) = runLoop (r.budget n) tol d (r.exitOf fl) ∧
+    (run r n tol d fl).writes.map (fun x => d x.2) = history (r.budget n) tol d (r.exitOf fl) := by
+  have h := run_eq_runLoop r (loops_row_ok hr) b hs n hb tol d fl
+  refine ⟨h, ?_⟩
+  have g := ((ok_safe r (loops_row_ok hr) n hn tol d fl).ran hb).good
+  rw [g.writes_eq, history, ← h]
+  simp [pairs, Function.comp_def]
+
+/-- every translated single loop has the skeleton's shape ([flag exit,] record, test) -/
+theorem loops_all_shaped : loopTable.all (fun r => r.shape.isSome) = true := by decide +kernel
+
+/-- the other final tests (`x < tol or e`: ria; `x < tol and e`: jbcd): the same LENGTH as the skeleton run on the outcomes of that test -/
+theorem loops_len_eq_skeleton (r : Row) (hr : r ∈ loopTable) (b : Bool) (t : Test) (hs : r.shape = some (b, t)) (n : Nat)
+    (hb : r.budget n ≠ 0) (tol : Rat) (d : Nat → Rat) (fl : Nat → Nat → Bool) :
+    (run r n tol d fl).slice.toNat = (runLoop (r.budget n) tol (r.enc t tol d fl) (r.exitOf fl)).1 ∧
+    ((run r n tol d fl).stop = .exhausted ↔ (runLoop (r.budget n) tol (r.enc t tol d fl) (r.exitOf fl)).2 = .exhausted) :=
+  run_len_eq_runLoop r (loops_row_ok hr) b t hs n hb tol d fl
+
+/-- the budget code of `golden/loop_budget.json` ("N+1" / "N" / "N-1") is a corollary of the table: the number of iterations max_iter
+allows is `max_iter + code`, `code = hi.const - lo` read off the loop header -/
+theorem loops_budget_code (r : Row) (hr : r ∈ loopTable) (n : Nat) : r.hi.coef = 1 ∧ r.budget n = ((n : Int) + r.code).toNat := by
+  have hc : r.hi.coef = 1 := by
+    have : loopTable.all (fun r => r.hi.coef == 1) = true := by decide +kernel
+    simpa using List.all_eq_true.mp this r hr
+  exact ⟨hc, budget_code r hc n⟩
+
+-- non-vacuity: rows of the regenerated table run on concrete streams (airpls: 1-based loop with the early exit; modpoly: range(max_iter))
+example : (loopTable.find? (·.key == "airpls")).map (fun r => (r.budget 5,
+      run r 5 (1/10) (fun k => 1 / ((k : Rat) + 1)) (fun _ _ => false),
+      run r 20 (1/10) (fun k => 1 / ((k : Rat) + 1)) (fun _ _ => false),
+      run r 20 (1/10) (fun k => 1 / ((k : Rat) + 1)) (fun k p => k == 3 && p == 0),
+      run r 0 (1/10) (fun _ => 1) (fun k _ => k == 0))) =
+    some (6, ⟨false, [(0,0),(1,1),(2,2),(3,3),(4,4),(5,5)], 6, 6, .exhausted⟩,
+      ⟨false, [(0,0),(1,1),(2,2),(3,3),(4,4),(5,5),(6,6),(7,7),(8,8),(9,9),(10,10)], 11, 10, .converged⟩,
+      ⟨false, [(0,0),(1,1),(2,2)], 3, 3, .early⟩,
+      ⟨false, [], 0, 0, .early⟩) := by decide +kernel
+example : (loopTable.find? (·.key == "modpoly")).map (fun r => ((run r 0 1 (fun _ => 0) (fun _ _ => false)).raised,
+      run r 1 1 (fun _ => 0) (fun _ _ => false))) = some (true, ⟨false, [(0,0)], 1, 0, .converged⟩) := by decide +kernel
+
+/-! #### the two-level loops (brpls, pspline_brpls and their 2-D versions; goldindec): `tol_history` is a `np.zeros` matrix with one
+row per outer iteration; `d a k` = the value recorded in inner step k of outer step a, `fl a k p` / `ofl a p` the opaque conditions -/
+open PbVerif.Lemmas.LoopNest in
+theorem nest_rows_ok : nestTable.all NestRow.ok = true := by decide +kernel
+
+open PbVerif.Lemmas.LoopNest in
+/-- for every max_iter, max_iter_2, tol and numeric behaviour: the call raises exactly when one of the two ranges is empty (a loop
+variable is unbound when read — an ordinary exception); otherwise every write `tol_history[i + r, j + c]` / `tol_history[r, i + c]`
+is inside the allocation `(max_iter_2 + R, max(max_iter, max_iter_2) + C)`, the final slice `[:i + S, :max(i, j_max) + T]` is within
+the allocation (so the record has at most max_iter_2 + R rows and max(max_iter, max_iter_2) + C columns), every recorded entry is
+inside the slice, and the matrix was zero-initialised — nothing uninitialised can be handed back -/
+theorem nest_memory_safe (r : NestRow) (hr : r ∈ nestTable) (m m2 : Nat) (tol : Rat) (d : Nat → Nat → Rat)
+    (fl : Nat → Nat → Nat → Bool) (ofl : Nat → Nat → Bool) :
+    r.zeroed = true ∧
+    ((nrun r m m2 tol d fl ofl).raised = true ↔ ((m2 : Int) + r.ohi ≤ 0 ∨ (m : Int) + r.ihi ≤ 0)) ∧
+    ((nrun r m m2 tol d fl ofl).raised = false →
+      (∀ x ∈ (nrun r m m2 tol d fl ofl).writes, (0 ≤ x.1 ∧ x.1 < r.allocRows m2) ∧ (0 ≤ x.2 ∧ x.2 < r.allocCols m m2) ∧
+        x.1 < (nrun r m m2 tol d fl ofl).srow ∧ x.2 < (nrun r m m2 tol d fl ofl).scol) ∧
+      (0 ≤ (nrun r m m2 tol d fl ofl).srow ∧ (nrun r m m2 tol d fl ofl).srow ≤ r.allocRows m2) ∧
+      (0 ≤ (nrun r m m2 tol d fl ofl).scol ∧ (nrun r m m2 tol d fl ofl).scol ≤ r.allocCols m m2)) := by
+  have hok : r.ok = true := List.all_eq_true.mp nest_rows_ok r hr
+  have s := ok_nsafe r hok m m2 tol d fl ofl
+  refine ⟨?_, s.raised_iff, fun h => ?_⟩
+  · simp only [NestRow.ok, Bool.and_eq_true] at hok
+    exact hok.1.1.1.1.1.1.1.1.1
+  · have g := s.ran h
+    exact ⟨fun x hx => by have := g.writes x hx; tauto, g.srow_in, g.scol_in⟩
+
+open PbVerif.Lemmas.LoopNest in
+/-- no entry of a two-level record is written twice (no recorded value overwrites another): the inner loop fills row `i + r` left to right,
+the outer writes go to their own constant rows below `r`, one column per outer step -/
+theorem nest_no_overwrite (r : NestRow) (hr : r ∈ nestTable) (m m2 : Nat) (tol : Rat) (d : Nat → Nat → Rat)
+    (fl : Nat → Nat → Nat → Bool) (ofl : Nat → Nat → Bool) : (nrun r m m2 tol d fl ofl).writes.Nodup :=
+  nrun_nodup r (List.all_eq_true.mp nest_rows_ok r hr)
+    (List.all_eq_true.mp (by decide +kernel : nestTable.all NestRow.distinct = true) r hr) m m2 tol d fl ofl
+
+-- non-vacuity: brpls' row with max_iter = 2, max_iter_2 = 1: the inner loop converges in its third step in outer step 0 and takes the
+-- early exit at once in outer step 1; goldindec's row raises for max_iter = 0
+example : (nestTable.find? (·.key == "brpls")).map (fun r =>
+      nrun r 2 1 (1/2) (fun _ k => 1 / ((k : Rat) + 1)) (fun a k p => a == 1 && k == 0 && p == 0) (fun _ _ => false)) =
+    some ⟨false, [(1, 0), (1, 1), (1, 2), (0, 0), (0, 1)], 3, 3, 2⟩ := by decide +kernel
+example : (nestTable.find? (·.key == "goldindec")).map (fun r =>
+      ((nrun r 0 3 1 (fun _ _ => 0) (fun _ _ _ => false) (fun _ _ => false)).raised,
+       nrun r 3 2 1 (fun _ _ => 0) (fun _ _ _ => false) (fun a p => a == 1 && p == 5))) =
+    some (true, ⟨false, [(2, 0), (0, 0), (1, 0), (3, 0), (0, 1), (1, 1)], 4, 2, 2⟩) := by decide +kernel
+
+end Loops
 
 end PbVerif.C01
